@@ -488,6 +488,22 @@ def _type_check_field_location(location, source_file_name, errors):
     _type_check_integer(location.size, source_file_name, errors, "Size of field")
 
 
+def _type_check_enum_value(enum_value, source_file_name, errors):
+    """Checks that the value of an enum name is an integer or another enum value."""
+    # `TEN = TEN2` (another value of an enum) is accepted; a boolean is not a
+    # number at all.
+    if enum_value.value.type.which_type not in ("integer", "enumeration"):
+        errors.append(
+            [
+                error.error(
+                    source_file_name,
+                    enum_value.value.source_location,
+                    "Enum value must be an integer.",
+                )
+            ]
+        )
+
+
 def _type_check_field_existence_condition(field, source_file_name, errors):
     _type_check_boolean(
         field.existence_condition, source_file_name, errors, "Existence condition"
@@ -646,6 +662,12 @@ def check_types(ir):
         ir,
         [ir_data.Field],
         _type_check_field_existence_condition,
+        parameters={"errors": errors},
+    )
+    traverse_ir.fast_traverse_ir_top_down(
+        ir,
+        [ir_data.EnumValue],
+        _type_check_enum_value,
         parameters={"errors": errors},
     )
     traverse_ir.fast_traverse_ir_top_down(
